@@ -402,16 +402,21 @@ Definition process_board_message (now : Z) (h0 : hs) (m : message) : res unit :=
   | ROk h _ => ROk h tt
   end.
 
+(* types.IsSigningEvent: the messages of the signing of batches are not part of what is restored *)
+Definition is_signing_event (e : string) : bool :=
+  String.eqb e ev_sgn_start || String.eqb e ev_sgn_partial || String.eqb e ev_sgn_error ||
+  String.eqb e ev_sig_reconstructed || String.eqb e ev_sig_recon_failed.
+
 (* reinitDKG *)
 Fixpoint reinit_msgs (now : Z) (me : tok) (id : tok) (h : hs) (msgs : list message) (ops : list opref)
   : option (hs * list opref) :=
   match msgs with
   | [] => Some (h, ops)
   | m :: r =>
-      (* messages of other rounds are skipped - also another round's signing batch, which does not
-         end the replay of this round *)
+      (* messages of other rounds are skipped; so are the messages of the signing phase, one by one
+         (a signing proposal refused while the key generation was under way does not end the replay) *)
       if negb (N.eqb (m_round m) id) then reinit_msgs now me id h r ops
-      else if String.eqb (m_event m) ev_sgn_start then Some (h, ops)
+      else if is_signing_event (m_event m) then reinit_msgs now me id h r ops
       else if N.eqb (m_recipient m) 0 || N.eqb (m_recipient m) me then
         match process_message false now h m with
         | RPanic => None
@@ -483,8 +488,9 @@ Definition execute_operation (h0 : hs) (x : op_result) : res unit :=
   match find (op_same_id (ox_ident x)) (ops_visible (h_st h0)) with
   | None => RErr h0
   | Some stored =>
-      (* Operation.Equal: id, type and payload must come back unchanged *)
-      if negb (op_same_type stored (ox_op x) && N.eqb (ox_stored_bytes x) (ox_bytes x))
+      (* Operation.Equal: id, type, payload and round must come back unchanged *)
+      if negb (op_same_type stored (ox_op x) && N.eqb (ox_stored_bytes x) (ox_bytes x) &&
+               N.eqb (op_round stored) (op_round (ox_op x)))
       then RErr h0 else
       (* only a reinit operation is answered by "processed" (nothing to post) *)
       if String.eqb (ox_event x) ev_processed && negb (String.eqb (op_type stored) ev_reinit)
@@ -501,7 +507,7 @@ Definition execute_operation (h0 : hs) (x : op_result) : res unit :=
           | RErr h => RErr h
           | ROk h i =>
               match p_dkg (i_payload i) with
-              | None => RPanic
+              | None => RErr h         (* the round has not reached the key generation: refused *)
               | Some dk =>
                   let p := i_payload i in
                   let p' := {| p_threshold := p_threshold p; p_sig := p_sig p;
